@@ -161,6 +161,22 @@ def _slot(t):
     return (c, {"class": 1, "field": 2, "method": 2, "rc": 2, "code": 3}.get(lvl, 9), mk, mi, g)
 
 
+def _replayable(evs):
+    """Mirror of Visit.tla Replayable, used ONLY to choose the records the binding self-test corrupts: the replay law is
+    stated for classes the tree can hold, a corrupted record of another class is accepted by design."""
+    if any(e["ev"] in ("finish_annotations", "finish_type_annotations") and e.get("n", 0) <= 0 for e in evs):
+        return False
+    seen = set()
+    for e in evs:
+        s = _slot(_tup(e))
+        if s[4] in ("scope", "members", "insns", "visit_unknown_attribute"):
+            continue
+        if (s, e["ev"]) in seen:
+            return False
+        seen.add((s, e["ev"]))
+    return True
+
+
 def _canon(es):
     return sorted(enumerate(es), key=lambda p: (_slot(p[1]), p[0]))
 
@@ -289,8 +305,10 @@ def c17_corrupt(recs, seed):
         return not (e["lvl"] == "code" and e["ev"] in ("visit_last_label", "visit_local_variables"))
 
     def add(r, fn):
+        import sys
         c = copy.deepcopy(r)
         if fn(c["got"]) is not False:
+            c["_cor"] = "C17.py:%d" % sys._getframe(1).f_lineno      # which corruption (for the log of a failed self-test)
             out.append(c)
 
     def drop_one(evs):
@@ -368,7 +386,8 @@ def c17_corrupt(recs, seed):
                     g["reads"][0]["events"], g["reads"][1]["events"] = b, a
                 add(r, exchange)
         elif op == "accept":
-            ok = [r for r in rs if r["got"].get("tree") and r["got"]["read"]["ok"] and r["got"]["replay"]["ok"]]
+            ok = [r for r in rs if r["got"].get("tree") and r["got"]["read"]["ok"] and r["got"]["replay"]["ok"]
+                  and _replayable(r["got"]["read"]["events"])]
             for r in ok[:8]:
                 add(r, lambda g: g.update({"tree_equal": False}))
                 add(r, lambda g: drop_one(g["replay"]["events"]))
